@@ -49,6 +49,15 @@ class Fields:
     @property
     def fs_pool_size(self):
         return self._get("fs_pool_size", lambda: by_type(self.db, "FactoryState", r"^usize$", "factory pool size"))
+    @property
+    def fs_pool(self):
+        return self._get("fs_pool", lambda: by_type(self.db, "FactoryState", r"^std::collections::HashMap<usize, ractor::factory::worker::WorkerProperties<", "factory worker pool"))
+    @property
+    def fs_by_actor(self):
+        return self._get("fs_by_actor", lambda: by_type(self.db, "FactoryState", r"^std::collections::HashMap<ractor::actor::actor_id::ActorId, usize>", "factory actor->worker index"))
+    @property
+    def lb_deadline(self):
+        return self._get("lb_deadline", lambda: by_type(self.db, "LeakyBucketRateLimiter", r"^std::option::Option<.*Instant>$", "limiter deadline"))
     # cluster
     @property
     def ra_tag(self):
